@@ -1415,6 +1415,28 @@ def _len_utf16(it, c, a):
     return IntV(k, 64, 0)
 
 
+_WS_POINTS = [0x20, 0x85, 0xA0, 0x1680, 0x2028, 0x2029, 0x202F, 0x205F, 0x3000]
+
+
+@model('char::is_whitespace')
+def _is_whitespace(it, c, a):
+    # Unicode White_Space, as core::char::methods::is_whitespace
+    x = deref(a[0])
+    if not x.sym():
+        v = x.v
+        return BoolV(0x09 <= v <= 0x0D or v in _WS_POINTS or 0x2000 <= v <= 0x200A)
+    v = x.v
+    return BoolV(z3.Or([z3.And(z3.UGE(v, 0x09), z3.ULE(v, 0x0D)), z3.And(z3.UGE(v, 0x2000), z3.ULE(v, 0x200A))] + [v == p for p in _WS_POINTS]))
+
+
+@model('char::is_ascii_whitespace')
+def _is_ascii_whitespace(it, c, a):
+    x = deref(a[0])
+    if not x.sym():
+        return BoolV(x.v in (0x20, 0x09, 0x0A, 0x0C, 0x0D))
+    return BoolV(z3.Or([x.v == p for p in (0x20, 0x09, 0x0A, 0x0C, 0x0D)]))
+
+
 @model('char::is_ascii')
 def _is_ascii(it, c, a):
     x = deref(a[0])
